@@ -42,6 +42,7 @@ type propCfg struct {
 	ID       string
 	Harness  string // directory under harness/
 	Instr    string // "" = not instrumented, else comma list of repo packages (".", "tds", "namepool")
+	Acc      bool   // also instrument field accesses for the happens-before race detector
 	Quick    tierCfg
 	Thorough tierCfg
 	Rule     string
@@ -143,7 +144,7 @@ func build(p *propCfg, dir string, race bool) (string, int) {
 		ov := filepath.Join(dir, "overlay.json")
 		cmd := exec.Command(filepath.Join(verifRoot, "bin", "vinstr"),
 			"-repo", repoRoot(), "-pkgs", p.Instr, "-mode", mode, "-out", filepath.Join(dir, "instr"),
-			"-overlay", ov, "-vrt", filepath.Join(verifRoot, "engine", "vrt"))
+			"-overlay", ov, "-vrt", filepath.Join(verifRoot, "engine", "vrt"), fmt.Sprintf("-acc=%v", p.Acc))
 		cmd.Env = env()
 		cmd.Dir = repoRoot()
 		out, err := cmd.CombinedOutput()
@@ -151,7 +152,7 @@ func build(p *propCfg, dir string, race bool) (string, int) {
 			fmt.Fprintf(os.Stderr, "vinstr failed: %v\n%s\n", err, out)
 			return "", 2
 		}
-		args = append(args, "-overlay", ov)
+		args = append(args, "-overlay", ov, "-tags", "vrt")
 	}
 	if race {
 		args = append(args, "-race")
